@@ -96,6 +96,19 @@ def gen_op(rng, root, depth, dflt, n, alphabet, structural=False):
         for p in leafpts(a, sub_depth, []):
             if rng.random() < 0.7:
                 acts.append([p] + list(rng.choice([("leave", 0), ("assign", 5), ("add", 1), ("reset", 0), ("assign", dflt)])))
+
+        def innerpts(t, d, pre):
+            if d <= 1:
+                return
+            for cc, p in t:
+                yield pre + [cc]
+                yield from innerpts(p, d - 1, pre + [cc])
+        for p in innerpts(a, sub_depth, []):
+            r = rng.random()
+            if r < 0.1:
+                acts.append([p, "skip", 0])
+            elif r < 0.3:
+                acts.append([p, "touch", rng.randrange(0, n + 1)])
         return {"k": "populate", "at": path, "a": a, "acts": acts}
     if k == "denseref":
         s = rng.randrange(0, n)
@@ -199,6 +212,12 @@ def apply_op(root, depth, dflt, op):
                         elif act[0] == "reset":
                             zr <<= dflt
                     else:
+                        act = acts.get(tuple(p), ("", 0))
+                        if act[0] == "skip":
+                            continue
+                        if act[0] == "touch":
+                            zr.getPositionRef(act[1])
+                            continue
                         loop(zr, av, p, d - 1)
             loop(f, a, [], sub_depth)
         elif k == "denseref":
